@@ -622,6 +622,8 @@ func (w *L1World) opDepositTo(id uint64) {
 		// amounts around the signed / unsigned 64-bit boundaries, paid by an account that can afford them
 		sender = w.whale
 		amt = mon.Pick(w.rng, []math.Int{math.NewIntFromUint64(1<<63 - 1), math.NewIntFromUint64(1 << 63), math.NewIntFromUint64(1<<63 + 12345), math.NewIntFromUint64(1<<64 - 1), math.NewIntFromUint64(1 << 62)})
+	case 3:
+		amt = math.NewInt(int64(1 + w.rng.Intn(2))) // the smallest positive amounts
 	default:
 		amt = math.NewInt(int64(1 + w.rng.Intn(100000)))
 	}
